@@ -16,7 +16,10 @@ import (
 
 var c12Fn = reg("C12", "c12-fn", checkEvalCase)
 
-var langTags = []string{"en", "EN", "en-US", "en-us", "en-GB", "de", "de-CH-1996", "zh", "zh-TW", "zh-Hant-TW", "x-private", "eng", "e", "", "fr-CA", "i-klingon", "en-"}
+var langTags = []string{"en", "EN", "en-US", "en-us", "en-GB", "de", "de-CH-1996", "zh", "zh-TW", "zh-Hant-TW", "x-private", "eng", "e", "", "fr-CA", "i-klingon", "en-",
+	// only ASCII case is ignored: these pairs differ in the case of non-ASCII letters (or in a
+	// character whose lower-case form is an ASCII letter) and do not match each other
+	"en-x-MÜNCHEN", "en-x-münchen", "ΕΛ-GR", "ελ", "\u212a", "k", "K", "tr-İ", "tr-i"}
 
 // langDoc draws a document whose elements carry xml:lang on various levels,
 // overridden and reset to "" deeper down.
@@ -60,6 +63,8 @@ func langDoc(t *rapid.T) []xmodel.Event {
 func langRelation(decl, q string) string {
 	d, l := strings.ToLower(decl), strings.ToLower(q)
 	switch {
+	case d == l && asciiLowerStr(decl) != asciiLowerStr(q):
+		return "equal-only-under-unicode-case-folding"
 	case d == l && decl != q:
 		return "equal-ignoring-case"
 	case d == l:
@@ -72,6 +77,15 @@ func langRelation(decl, q string) string {
 		return "empty-range"
 	}
 	return "unrelated"
+}
+
+func asciiLowerStr(s string) string {
+	return strings.Map(func(r rune) rune {
+		if r >= 'A' && r <= 'Z' {
+			return r + 32
+		}
+		return r
+	}, s)
 }
 
 func nearestLang(n *xmodel.Node) (string, bool) {
